@@ -201,8 +201,8 @@ func intLits(fd *ast.FuncDecl) []*ast.BasicLit {
 }
 
 type constSpec struct {
-	pkg  string
-	fn   string   // "" = package level constant(s)
+	pkg   string
+	fn    string   // "" = package level constant(s)
 	names []string // for fn != "": one name per literal in source order ("_" = not exported);
 	// for fn == "": the constant identifiers to export
 }
@@ -630,13 +630,17 @@ func main() {
 	}
 	os.MkdirAll(*out, 0o755)
 	files := map[string]string{
-		"GenConsts.v":  genConsts(),
-		"GenTables.v":  genTables(),
-		"GenRyu.v":     genRyu(),
-		"GenKernels.v": genKernels(),
-		"GenFuncs.v":   genFuncs(),
-		"GenSorter.v":  genSorter(),
-		"GenGrouper.v": genGrouper(),
+		"GenConsts.v":       genConsts(),
+		"GenTables.v":       genTables(),
+		"GenRyu.v":          genRyu(),
+		"GenKernels.v":      genKernels(),
+		"GenFuncs.v":        genFuncs(),
+		"GenSorter.v":       genSorter(),
+		"GenGrouper.v":      genGrouper(),
+		"GenFilterClause.v": genFilterClause(),
+		"GenStrSer.v":       genStrSer(),
+		"GenRyuText.v":      genRyuText(),
+		"GenFastCsv.v":      genFastCsv(),
 	}
 	// Files are written even when problems were found so that the directed search can still build: every
 	// definition that could not be derived from the current source is taken from the golden copy (the output
